@@ -244,7 +244,7 @@ pub fn classify_coarse(s: &Desc, t: &Desc) -> String {
 /// Edge index meaning "no edge value: draw a random one".
 pub const RANDOM: usize = usize::MAX;
 
-pub trait Term: Value<Transformed: PartialEq> + Clone + 'static {
+pub trait Term: Value<Transformed: PartialEq + Send + Sync> + Clone + Send + Sync + 'static {
     fn desc() -> Desc;
     /// number of edge values; `generate(rng, e)` for `e < n_edges()` is the e-th edge value
     fn n_edges() -> usize;
